@@ -56,6 +56,7 @@ Guard(e) ==
     [] e.ev = "AddOpts"    -> IsAddOptsOk(e) => /\ e.id \in IDT \ mgr[e.m].unavail
                                                 /\ K!Folded(e.r, e.opts).hasFixed => e.id = K!Folded(e.r, e.opts).fixed
     [] e.ev = "NewHandle"  -> e.id \in IDT
+    [] e.ev = "Abandoned"  -> FALSE     \* the driver could not continue a planned scenario (a handle is missing)
     [] e.ev \in {"FromHandle", "HLen", "HEntry", "HPrimary", "HInfo", "HString", "HPublic", "Import", "ImportAnn"}
                            -> e.h \in DOMAIN handles
     [] OTHER -> TRUE
@@ -87,7 +88,7 @@ Step(e) ==
     [] e.ev = "ImportAnn"  -> K!ImportAnn(e.h, e.anns)
 
 (************************* documented vs. copied-from-the-code *************************)
-ObsOps == {"AddOpts", "AddOptsNilKey", "HNil", "SetAnnotationsNilMgr", "NewHandleFail", "ImportAnn"}
+ObsOps == {"AddOpts", "AddOptsNilKey", "HNil", "SetAnnotationsNilMgr", "NewHandleFail", "ImportAnn", "Abandoned"}
 ClassErr(e)       == IF e.ev \in ObsOps THEN "obs: " ELSE "doc: "
 ClassState(e, me) == IF e.ev \in {"AddOpts", "AddOptsNilKey"} /\ (e.err \/ me) THEN "obs: " ELSE "doc: "
 ClassMgrAnn(e)    == IF e.ev = "SetAnnotations" THEN "doc: " ELSE "obs: "
